@@ -22,8 +22,8 @@ def oracle(case):
     if case['archived'] is not None:
         arch = {p for k, p in case['archived']}
         for i, m in enumerate(case['items']):
-            if m['resolved'] is None or m.get('node', {}).get('kind') != 'dir':
-                continue
+            if m['resolved'] is None or m.get('node', {}).get('kind') != 'dir' or m.get('no_faults'):
+                continue    # (no_faults marks an item rejected for overlapping an earlier one: it is never read)
             root = '/' + '/'.join(m['resolved'])
             names = [c['name'] for c in m['node']['children']]
             reached = any(p == root for p in arch)
